@@ -8,7 +8,8 @@
 (*   refused   - the document must be refused with a diagnostic that names the  *)
 (*               line of the FIRST corrupted element                            *)
 (* Ways: missing (attribute removed), badnum (a number followed by a letter),   *)
-(* text (a word where a number is expected), empty (empty string), badenum (a   *)
+(* text (a word where a number is expected), huge (a well-formed literal that    *)
+(* overflows: 1e999), empty (empty string), badenum (a                          *)
 (* value outside the enumeration), unknown (an attribute the schema does not    *)
 (* know), domain (a value of the right type outside its meaningful domain: a    *)
 (* non-positive standard deviation, a probability outside (0, 1), a negative    *)
@@ -56,7 +57,7 @@ Paired == { <<"point", "x">>, <<"point", "y">>, <<"fixpoint", "x">>, <<"fixpoint
 Needed == { <<"pobs", "direction-stdev">>, <<"obs", "from">>, <<"cpoint", "z">> }
 Ways(e, a) ==
   (IF a.req \/ <<e, a.n>> \in Paired THEN {"missing"} ELSE IF <<e, a.n>> \in Needed THEN {} ELSE {"missing_optional"})
-  \cup (IF a.ty \in Numeric THEN {"badnum", "text"} \cup (IF <<e, a.n>> \in Needed THEN {} ELSE {"empty"}) ELSE {})
+  \cup (IF a.ty \in Numeric THEN {"badnum", "text", "huge"} \cup (IF <<e, a.n>> \in Needed THEN {} ELSE {"empty"}) ELSE {})
   \cup (IF a.ty = "enum" THEN {"badenum", "empty"} ELSE {})
   \cup (IF a.ty = "id" /\ a.req THEN {"empty"} ELSE {})
   \cup (IF a.ty \in {"posnum", "prob", "nat"} THEN {"domain"} ELSE {})
